@@ -265,8 +265,9 @@ def mutate(trace, prop, rnd):
             a, b = t["h"][l - 1], t["h"][c - 1]
             return {"fifo": a["t"] > b["t"], "lifo": a["t"] < b["t"], "hifo": a["price"] < b["price"], "lofo": a["price"] > b["price"]}[m]
 
-        cand = [(i, l) for i in lot_takes for l in lots if l != lines[i]["lot"] and t["h"][l - 1]["t"] <= t["h"][lines[i]["ev"] - 1]["t"]
-                and worse(method_of(lines[i]["ev"]), l, lines[i]["lot"])]
+        nh = len(t["h"])      # (artificial fee disposals of spreadsheet-mode traces have positions beyond the given history: not used for controls)
+        cand = [(i, l) for i in lot_takes for l in lots if lines[i]["ev"] <= nh and lines[i]["lot"] <= nh and l != lines[i]["lot"]
+                and t["h"][l - 1]["t"] <= t["h"][lines[i]["ev"] - 1]["t"] and worse(method_of(lines[i]["ev"]), l, lines[i]["lot"])]
         if not cand:
             return None
         i, l = rnd.choice(cand)
